@@ -176,7 +176,7 @@ func (r *rec) fail(name, impl, format string, a ...any) {
 // its first failure, without the "after-<op>" suffix (the failure does not
 // depend on the last op), and the state is still expanded.
 var stateObs = []string{"answer", "panic", "Len", "Size", "Len/Size", "Dirty", "Get", "GetLocal", "GetFlags", "GetFlags.raw", "SnapshotGetter.Get", "GetSnapshot.Get",
-	"SelectValueHistory", "BatchGet", "InspectStage", "stale-iterator.Valid", "stale-iterator.Key", "stale-iterator.Next", "SnapshotGetter.stable"}
+	"SelectValueHistory", "BatchGet", "InspectStage", "CommitterView", "stale-iterator.Valid", "stale-iterator.Key", "stale-iterator.Next", "SnapshotGetter.stable"}
 var readGroups = [][]string{
 	{"Iter", "IterReverse", "IterWithFlags", "IterReverseWithFlags", "GetKeyByHandle", "GetValueByHandle"},
 	{"SnapshotIter", "SnapshotIterReverse"},
@@ -261,6 +261,7 @@ type execInfo struct {
 	// (or stripped of flags) and that had not been written since.
 	RewriteAfterUndo bool
 	Undone           bool // the last op is an undo that removed a key or stripped flags
+	Ghosts           int  // keys that an undo removed / stripped and nobody has written since (after the last op)
 }
 
 func (c *Config) execX(h []seqx.Op) (seqx.Result, execInfo) {
@@ -300,12 +301,12 @@ func (c *Config) execX(h []seqx.Op) (seqx.Result, execInfo) {
 		}
 		before := gh.before(m, o)
 		want := membuf.ApplyModel(m, o, c.Keys)
-		rewrite, undone := gh.after(m, o, before, want, c.Keys)
+		rewrite, ghosted := gh.after(m, o, before, want, c.Keys)
 		if rewrite {
 			r.class = ":rewrite-after-undo"
 		}
 		if last {
-			info.RewriteAfterUndo, info.Undone = rewrite, undone
+			info.RewriteAfterUndo, info.Undone = rewrite, ghosted
 		}
 		for _, im := range impls {
 			got := membuf.ApplyReal(im, o, c.Keys, depth, len(m.Cps))
@@ -380,6 +381,7 @@ func (c *Config) execX(h []seqx.Op) (seqx.Result, execInfo) {
 	res.Outcome = seqx.Digest(out.String())
 	res.NonTrivial = nonTrivial(m)
 	res.Viols, res.Prune = r.viols()
+	info.Ghosts = len(gh)
 	return res, info
 }
 
@@ -623,6 +625,29 @@ func (c *Config) observe(m *omap.Model, im *membuf.Impl, r *rec, out *strings.Bu
 		}
 	}
 
+	// what a committer would build from the buffer (txnkv/transaction/2pc.go initKeysAndMutations reads
+	// IterWithFlags(nil, nil)): mutation kind, pessimistic mark, assertion, constraint check per key
+	if !c.Light {
+		var got []string
+		for it := im.IterWithFlags(nil, nil); it.Valid() && len(got) <= limit; {
+			var v []byte
+			if it.HasValue() {
+				v = it.Value()
+			}
+			got = append(got, committerView(it.Key(), it.HasValue(), len(v), membuf.ProjectReal(it.Flags())))
+			if it.Next() != nil {
+				break
+			}
+		}
+		var want []string
+		for _, e := range m.View(true, false) {
+			want = append(want, committerView([]byte(e.Key), e.HasValue, len(e.Val), membuf.ProjectModel(e.Flags)))
+		}
+		if g, w := strings.Join(got, " "), strings.Join(want, " "); g != w {
+			r.fail("CommitterView", im.Name, "a committer would see [%s], expected [%s]", g, w)
+		}
+	}
+
 	// iterators over all bound pairs
 	vals := m.View(false, false)
 	withFlags := m.View(true, false)
@@ -683,6 +708,50 @@ func (c *Config) observe(m *omap.Model, im *membuf.Impl, r *rec, out *strings.Bu
 		// IterReverseWithFlags(upper) (no lower bound in the API); l plays the upper bound here
 		c.checkFlagIter(m, im, r, "IterReverseWithFlags", im.IterReverseWithFlags(l), omap.Range(withFlags, nil, l, true), nil, l, limit)
 	}
+}
+
+// committerView renders the mutation that initKeysAndMutations derives from one buffer entry, for an
+// optimistic and a pessimistic transaction ("-" = the key is skipped), plus the assertion and the
+// constraint-check mark that are pushed with it. Input: the accessor projection of the flags only.
+func committerView(key []byte, hasValue bool, vlen int, f uint32) string {
+	has := func(bit uint32) bool { return f&bit != 0 }
+	lock := "Lock"
+	if has(membuf.ObsLockedShare) {
+		lock = "SharedLock"
+	}
+	op := func(pessimistic bool) string {
+		switch {
+		case !hasValue:
+			if !has(membuf.ObsLocked) {
+				return "-"
+			}
+			return lock
+		case vlen > 0:
+			if has(membuf.ObsPresume) {
+				return "Insert"
+			}
+			return "Put"
+		case !pessimistic && has(membuf.ObsPresume):
+			return "CheckNotExists"
+		case has(membuf.ObsNewlyInserted):
+			if !has(membuf.ObsLocked) {
+				return "-"
+			}
+			return lock
+		}
+		return "Del"
+	}
+	assert := "none"
+	switch {
+	case has(membuf.ObsAssertExist) && has(membuf.ObsAssertNotExist):
+		assert = "unknown"
+	case has(membuf.ObsAssertExist):
+		assert = "exist"
+	case has(membuf.ObsAssertNotExist):
+		assert = "not-exist"
+	}
+	return fmt.Sprintf("%s:%s/%s,pess=%v,assert=%s,cc=%v,prewrite-only=%v", membuf.QuoteKey(key), op(false), op(true), has(membuf.ObsLocked), assert,
+		has(membuf.ObsNeedConstraintCheck), has(membuf.ObsPrewriteOnly))
 }
 
 // checkFlagIter walks an iterator with flags, compares keys, flags, value
